@@ -42,6 +42,9 @@ need_tj = [
     "for(j=0;j<MIN(th[i],ph[i]-crow[i]);j++){memcpy(outbuf[i][crow[i]+j],tmpbuf[i][j],pw[i]);}",
     "for(j=0;j<MIN(th[i],ph[i]-crow[i]);j++){memcpy(tmpbuf[i][j],inbuf[i][crow[i]+j],pw[i]);",
     "if(iw[i]!=pw[i]||ih!=ph[i])usetmpbuf=1;",
+    # geometry of the temporary buffer (model/ExtentTmp.v)
+    "iw[i]=compptr->width_in_blocks*dctsize;",
+    "th[i]=compptr->v_samp_factor*dctsize;",
     "if(usetmpbuf)yuvptr[i]=tmpbuf[i];elseyuvptr[i]=&outbuf[i][crow[i]];",
     "jcopy_sample_rows(tmpbuf2[i],0,outbuf[i],row*compptr->v_samp_factor/cinfo->max_v_samp_factor,compptr->v_samp_factor,pw[i]);",
     "jcopy_sample_rows(inbuf[i],row*compptr->v_samp_factor/dinfo->max_v_samp_factor,tmpbuf[i],0,compptr->v_samp_factor,pw[i]);",
@@ -52,6 +55,19 @@ need_tj = [
 for n in need_tj:
     if n not in ntj:
         die("turbojpeg.c: statement the model transcribes is gone: " + n)
+# geometry of _tmpbuf inside tj3DecompressToYUVPlanes8 (model/ExtentTmp.v): rows iw[i] apart
+# (as found: the copy-out of pw[i] bytes can read past them, finding F10) or MAX(iw[i], pw[i]) apart
+m = re.search(r"DLLEXPORT int tj3DecompressToYUVPlanes8\b(.*?)\nDLLEXPORT ", tj, re.S)
+if not m:
+    die("turbojpeg.c: tj3DecompressToYUVPlanes8 not found")
+body = norm(m.group(1))
+narrow = "tmpbufsize+=iw[i]*th[i];" in body and "tmpbuf[i][row]=ptr;ptr+=iw[i];" in body
+wide = "tmpbufsize+=MAX(iw[i],pw[i])*th[i];" in body and "tmpbuf[i][row]=ptr;ptr+=MAX(iw[i],pw[i]);" in body
+if narrow == wide:
+    die("turbojpeg.c: tj3DecompressToYUVPlanes8: layout of _tmpbuf (tmpbufsize / row stride) is neither iw[i] nor MAX(iw[i],pw[i])")
+m2 = re.search(r"DLLEXPORT int tj3CompressFromYUVPlanes8\b(.*?)\nDLLEXPORT ", tj, re.S)
+if not m2 or "tmpbufsize+=iw[i]*th[i];" not in norm(m2.group(1)) or "tmpbuf[i][row]=ptr;ptr+=iw[i];" not in norm(m2.group(1)):
+    die("turbojpeg.c: tj3CompressFromYUVPlanes8: layout of _tmpbuf changed")
 mp = norm(open(repo + "/src/turbojpeg-mp.c").read())
 need_mp = [
     "row_pointer[i]=(_JSAMPROW)&srcBuf[(height-i-1)*(size_t)pitch];",
@@ -93,6 +109,7 @@ def zl(xs):
 print("(* GENERATED by tools/gen_Align.py from src/jmemmgr.c, src/turbojpeg.c, src/turbojpeg-mp.c, src/turbojpeg.h -- do not edit *)")
 print("From Coq Require Import List ZArith.\nImport ListNotations.\nLocal Open Scope Z_scope.\n")
 print("Definition align_size_simd : Z := %d." % align_simd)
+print("Definition tmp_rows_cover_pw : bool := %s." % ("true" if wide else "false"))
 print("Definition tj_mcu_width : list Z := %s." % zl(mw))
 print("Definition tj_mcu_height : list Z := %s." % zl(mh))
 print("Definition tj_pixel_size : list Z := %s." % zl(pxs))
